@@ -1,2 +1,2 @@
 import LdkModel.Driver.C07
-def main (args : List String) : IO UInt32 := Ldk.Driver.runMain [("c07bump", Ldk.Driver.c07bump), ("c07close", Ldk.Driver.c07close)] args
+def main (args : List String) : IO UInt32 := Ldk.Driver.runMain [("c07bump", Ldk.Driver.c07bump), ("c07close", Ldk.Driver.c07close), ("c07fee", Ldk.Driver.c07fee)] args
